@@ -35,7 +35,7 @@ def main():
     rcd1, demo1 = sh("cd %s && /venv/bin/python %s/demo.py 2>&1" % (WT, d), env=env)
     res = {"seed": os.path.basename(d), "suite_base": base.strip(), "suite_mut": mut.strip(), "demo_base_rc": rcd0, "demo_mut_rc": rcd1, "checks": {}}
     for c in checks:
-        rcc, o = sh("cd /verif && VERIF_REPO=%s ./check %s 2>&1" % (WT, c))
+        rcc, o = sh("cd /verif && mkdir -p /tmp/seed_evidence && VERIF_EVIDENCE_DIR=/tmp/seed_evidence VERIF_REPO=%s ./check %s 2>&1" % (WT, c))
         viol = re.findall(r"^VIOLATION.*$", o, re.M)
         broken = re.findall(r"BROKEN obligation: (\S+)", o)
         what = re.findall(r"->\s*(.*)", o)
